@@ -91,4 +91,18 @@ TEXTS['C02'] = {
     'technique': "Lean 4 proof (induction over attempts; order-independence of consistent writes; refinement via C16) + differential correspondence + end-to-end oracle",
 }
 
+TEXTS['C01'] = {
+    'text': "Lean theorems over every source, start offset, threshold and chunk size: the part bodies of path and seekable "
+            "sources concatenate to the source (no gap/overlap/reordering, all but the last of full size); for non-seekable "
+            "streams the same for every short-read pattern and either outcome of the threshold pre-read; a body re-read after "
+            "any history returns the same bytes (client-level rewinds); copy ranges run from byte 0 to the last byte. "
+            "Tied to the three input managers, ReadFileChunk and the copy plan by differential correspondence; the "
+            "end-to-end oracle judges the stored object, 'completed once', part numbers 1..n and the returned ETags/checksums "
+            "through the real manager (sequential executor here, all schedules under the explorer in C05/C03). Partial: the "
+            "cross-thread ordering of create/parts/complete is a theorem of the M2 model (C05), not of this file.",
+    'note': COMMON_NOTE + "botocore's use of a body and the multipart assembly of S3 are the fake service's; regular files and "
+            "seekable streams are assumed to read fully.",
+    'technique': "Lean 4 proof (list induction over slices / read loop) + differential correspondence + end-to-end oracle",
+}
+
 NOT_APPLICABLE = []
